@@ -516,6 +516,9 @@ class Executor:
             # a normal return must not happen where the contract says `raises`
             for exc, cond in c.raises.items():
                 self.oblige(st, z3.Not(Zb(self.spec(self.entry_with_pc(st), cond))), f"raises.{exc}.not_returned", "raises")
+            # ... the same with the condition read in the state the path ENDS in (ghost counters advanced along the way)
+            for exc, cond in getattr(c, "raises_now", {}).items():
+                self.oblige(st, z3.Not(Zb(self.spec(st, cond, extra_env=env, old=self.entry))), f"raises.{exc}.not_returned", "raises")
             for label, e in getattr(c, "canaries", ()):
                 if label not in self._canaries_done:
                     try:
@@ -530,6 +533,8 @@ class Executor:
             exc = value
             if exc in c.raises:
                 self.oblige(st, self.spec(self.entry_with_pc(st), c.raises[exc]), f"raises.{exc}.only_when", "raises")
+            elif exc in getattr(c, "raises_now", {}):
+                self.oblige(st, self.spec(st, c.raises_now[exc], old=self.entry), f"raises.{exc}.only_when", "raises")
             else:
                 # undeclared exception: must be unreachable
                 self.oblige(st, False, f"no_{exc}", "raises")
@@ -1600,6 +1605,11 @@ class Evaluator:
             return f.fn(self, *args, **kwargs)
         if isinstance(f, PyCallable):
             return f.fn(self, args, kwargs, n)
+        if isinstance(f, Obj):
+            # an object with attributes that is also called (a closure with function attributes): handler "<oid>" of the contract
+            h = self.ex.contract.handlers.get(f.oid)
+            if h is not None:
+                return h(self.ex, self.st, args, kwargs, n, self)
         raise Outside(f"call of {type(f).__name__}")
 
     def e_Lambda(self, n):
